@@ -6,7 +6,7 @@ from .. import engineb as eb
 from ..runner import jdump
 from . import c03
 
-RUNS = {"quick": 800, "thorough": 40000}
+RUNS = {"quick": 800, "thorough": 20000}
 DUP = {"quick": 32, "thorough": 256}
 WALL = {"quick": 1500, "thorough": 6 * 3600}
 RUN_TIMEOUT = {"quick": 600, "thorough": 900}
@@ -50,12 +50,54 @@ def make_case(ns, i, rng, tier):
         profile = {"n_consts": (4, 14), "symbolic": 0.9, "w_data": 8, "w_repeat": 2.0, "link": 0.9}
     elif k < 0.6:
         profile = {"link": 0.0, "include": 0.5}
+    if tier == "thorough" and rng.random() < 0.4:
+        profile = dict(profile, n_stmts=(10, 80), n_consts=(4, 20), n_labels=(0, 10))
     return eb.generated_case(rng, profile)
 
 
 def monitor_violations(obs):
     tr = obs.get("trace") or {}
     return tr.get("violations", [])
+
+
+def marker_violations(case, obs, counters=None):
+    """Independent of the trace wrappers: every label of the generator's ledger, as the assembler's own
+    symbol table reports it, must point at the marker bytes that follow it in the image."""
+    from . import c19
+    table = getattr(case, "markers", None)
+    if table is None and getattr(case, "prog", None) is not None:
+        table = {f.path: {k.lower(): v for k, v in f.markers.items()} for f in case.prog.files}
+        case.markers = table
+    if not table or obs["status"] != "ok" or not obs.get("result") or len(obs["result"]) < 3:
+        return []
+    if any(d[0] in ("error", "critical") for d in obs["diags"]):
+        return []
+    base, code, listing = obs["result"]
+    try:
+        blocks = c19.parse_listing(listing)
+    except ValueError:
+        return []
+    out = []
+    for fname, entries in blocks:
+        markers = table.get(fname)
+        if not markers:
+            continue
+        for t, n in entries:
+            mk = markers.get(n.lower())
+            if mk is None:
+                continue
+            try:
+                val = int(t, 8)
+            except ValueError:
+                continue
+            if counters is not None:
+                counters["probe:label_markers_checked"] = counters.get("probe:label_markers_checked", 0) + 1
+            off = val - base
+            if not (0 <= off <= len(code)) or code[off:off + len(mk)] != mk:
+                out.append(("label-marker", "label %s of %s has value %o = base %o + %d, but the bytes that follow the label in "
+                            "the source are not at image offset %d" % (n, fname, val, base, off, off)))
+                break
+    return out
 
 
 def violation_record(case, sched, viols, how):
@@ -69,6 +111,7 @@ def violation_record(case, sched, viols, how):
         "sources": [p for p, _ in case.sources],
         "files": {p: b for p, b in w.files.items()},
         "schedule": [(case.defs[k]["name"], case.defs[k]["file"], p) for k, p in sched],
+        "markers": getattr(case, "markers", None),
     }
 
 
@@ -107,7 +150,7 @@ def run_one(ns, i, seed_i, tier):
             counters["probe:runs_with_errors_not_judged"] += 1
         return tr
 
-    obs0 = eb.run_case(ns, case, trace=True)
+    obs0 = eb.run_case(ns, case, trace=True, listing=True)
     tr0 = account(obs0)
     log.append(("base", obs0["status"], tr0.get("entries"), tr0.get("violations")))
     expensive = obs0["forces"] > 150_000 and case.origin == "gen"
@@ -116,14 +159,18 @@ def run_one(ns, i, seed_i, tier):
         import struct
         got = struct.pack("<HH", obs0["result"][0], len(obs0["result"][1])) + obs0["result"][1]
         counters["probe:practice_image_equals_out_bin"] = int(got == case.expected_bin)
-    v0 = monitor_violations(obs0)
+    v0 = monitor_violations(obs0) + marker_violations(case, obs0, counters)
     if v0:
-        c2, s2 = eb.minimise(ns, case, [], lambda c, s: bool(monitor_violations(eb.run_case(ns, c, trace=True))), max_probes=150)
+        def bad(c, s):
+            c.markers = getattr(case, "markers", None)
+            o = eb.run_case(ns, c, trace=True, listing=True)
+            return bool(monitor_violations(o)) or (not c.stmts and bool(marker_violations(c, o)))
+        c2, s2 = eb.minimise(ns, case, [], bad, max_probes=150) if monitor_violations(obs0) else (case, [])
         v2 = monitor_violations(eb.run_case(ns, c2, trace=True)) or v0
         violations.append(violation_record(c2 if v2 is not v0 else case, [], v2, "fault-free run"))
     sched_budget = max(400_000, 8 * obs0["forces"])
     if case.defs and not violations and not expensive and obs0["status"] != "BUDGET":
-        nsched = rng.randint(4, 12) if case.origin == "gen" else (3 if tier == "quick" else 10)
+        nsched = (rng.randint(4, 12) if tier == "quick" else rng.randint(8, 24)) if case.origin == "gen" else (3 if tier == "quick" else 10)
         seen = set()
         budget_hits = 0
         for sched in eb.make_schedules(rng, case, nsched):
@@ -187,8 +234,9 @@ def replay(ns, v):
     files = v["files"]
     sources = [(p, files[p].decode("utf-8")) for p in v["sources"]]
     case = eb.Case(sources, files, v.get("charset", "bk"), "replay")
-    obs = eb.run_case(ns, case, trace=True)
-    vs = monitor_violations(obs)
+    case.markers = v.get("markers")
+    obs = eb.run_case(ns, case, trace=True, listing=True)
+    vs = monitor_violations(obs) + marker_violations(case, obs)
     print("replay C02: status %s, %d trace entries, monitor: %s" % (obs["status"], (obs.get("trace") or {}).get("entries", 0), vs[:2]))
     for key, what in vs[:1]:
         res["violations"].append({"key": "trace:" + key, "what": what})
